@@ -20,6 +20,8 @@ def _err(e) -> str:
         msg = str(getattr(e, "msg", "") or e)
         if "Session variable" in msg and "does not exist" in msg:
             return "err:novar"
+        if "already exists" in msg:
+            return "err:exists"
         if (e.errno, e.sqlstate) in ((2003, "42S02"), (2043, "02000")):
             return "err:missing"
         return f"perr:{e.errno}/{e.sqlstate}"
@@ -37,27 +39,36 @@ class SYS(Prop):
     ]
 
     def consts(self, tier):
-        return {"Conn": {"c1", "c2"}, "ScriptsUsed": True, "TgtUsed": {"u", "S1", "S2"}}
+        return {"Conn": {"c1", "c2"}, "ScriptsUsed": True, "TgtUsed": {"u", "S1", "S2"}, "Feat": {"cur", "ddl", "dml2"}}
 
     def model_checks(self, tier):
         big = tier == "thorough"
-        c = {"Conn": {"c1", "c2"}, "ScriptsUsed": False, "TgtUsed": {"u", "S2"}, "Devs": set(),
+        c = {"Conn": {"c1", "c2"}, "ScriptsUsed": False, "TgtUsed": {"u", "S2"}, "Feat": set(), "Devs": set(),
              "Depth": 7 if big else 5, "MaxFails": 99, "SampleOneIn": 1}
+        d = 6 if big else 4
         return [
             dict(name="sys_mc", module="FsSystemGen", consts=c, invariants=["StepInv"], constraint="Bound", view="ViewSt", timeout=1500),
-            dict(name="sys_mc_scripts", module="FsSystemGen", consts=dict(c, ScriptsUsed=True, TgtUsed={"u"}, Depth=3),
+            dict(name="sys_mc_scripts", module="FsSystemGen", consts=dict(c, ScriptsUsed=True, TgtUsed={"u"}, Feat={"ddl"}, Depth=3),
+                 invariants=["StepInv"], constraint="Bound", view="ViewSt", timeout=1500),
+            dict(name="sys_mc_cursor", module="FsSystemGen", consts=dict(c, TgtUsed={"u"}, Feat={"cur"}, Depth=d + 1),
+                 invariants=["StepInv"], constraint="Bound", view="ViewSt", timeout=1500),
+            dict(name="sys_mc_ddl", module="FsSystemGen", consts=dict(c, Feat={"ddl"}, Depth=d),
+                 invariants=["StepInv"], constraint="Bound", view="ViewSt", timeout=1500),
+            dict(name="sys_mc_all", module="FsSystemGen", consts=dict(c, Feat={"cur", "ddl", "dml2"}, Depth=d),
                  invariants=["StepInv"], constraint="Bound", view="ViewSt", timeout=1500),
         ]
 
     def generations(self, tier, seed):
         big = tier == "thorough"
-        base = {"Conn": {"c1", "c2"}, "ScriptsUsed": True, "TgtUsed": {"u", "S1", "S2"},
+        base = {"Conn": {"c1", "c2"}, "ScriptsUsed": True, "TgtUsed": {"u", "S1", "S2"}, "Feat": {"cur", "ddl", "dml2"},
                 "Devs": set(), "MaxFails": 3, "SampleOneIn": 1}
         return [
             dict(name="sys_walks", module="FsSystemGen", mode="walks", depth=14, num=6000 if big else 400, consts=dict(base, Depth=14)),
             dict(name="sys_walks_long", module="FsSystemGen", mode="walks", depth=30, num=1500 if big else 60, seed_offset=3,
                  consts=dict(base, Depth=30, MaxFails=6)),
             dict(name="sys_paths", module="FsSystemGen", mode="paths", sample=20000 if big else 800,
+                 consts=dict(base, ScriptsUsed=False, TgtUsed={"u"}, Feat=set(), MaxFails=1, Depth=3)),
+            dict(name="sys_paths_feat", module="FsSystemGen", mode="paths", sample=20000 if big else 800,
                  consts=dict(base, ScriptsUsed=False, TgtUsed={"u"}, MaxFails=1, Depth=3)),
         ]
 
@@ -81,6 +92,7 @@ class SYS(Prop):
             sc.execute(f"create table DB1.{p}.t (v int)")
         conns = {c: _FS.connect("DB1", phys["S1"]) for c in ("c1", "c2")}
         longcur = {c: conns[c].cursor() for c in conns}
+        rescur = {c: conns[c].cursor() for c in conns}       # holds the open result of "sel"; used for nothing else
         probe = {c: conns[c].cursor() for c in conns}
 
         def sql_of(a, bound):
@@ -96,6 +108,20 @@ class SYS(Prop):
                 tgt = "t" if a["tgt"] == "u" else f"db1.{phys[a['tgt']]}.t"
                 val, params = ("$n", None) if a["src"] == "var" else (("%s", (a["v"],)) if bound else (str(a["v"]), None))
                 return (f"insert into {tgt} values ({val})" if k == "ins" else f"delete from {tgt} where v = {val}"), params
+            if k in ("upd", "ins2", "delall", "mk", "rm", "sel"):
+                tgt = ("t" if k not in ("mk", "rm") else "u") if a["tgt"] == "u" else f"db1.{phys[a['tgt']]}.{'u' if k in ('mk', 'rm') else 't'}"
+                if k == "upd":
+                    return (f"update {tgt} set v = %s where v = %s", (a["w"], a["v"])) if bound else (f"update {tgt} set v = {a['w']} where v = {a['v']}", None)
+                if k == "ins2":
+                    own = (1, 2) if a["c"] == "c1" else (3, 4)
+                    return (f"insert into {tgt} values (%s), (%s)", own) if bound else (f"insert into {tgt} values ({own[0]}), ({own[1]})", None)
+                if k == "delall":
+                    return f"delete from {tgt}", None
+                if k == "mk":
+                    return f"create table {'if not exists ' if a['soft'] else ''}{tgt} (v int)", None
+                if k == "rm":
+                    return f"drop table {'if exists ' if a['soft'] else ''}{tgt}", None
+                return f"select v from {tgt} order by v", None
             if k == "fail":
                 return {"notable": "select * from vt_no_such_table", "nocol": "select vt_no_such_column from t",
                         "nosch": "select * from db1.vt_no_such_schema.t"}[a["why"]], None
@@ -106,13 +132,15 @@ class SYS(Prop):
         def outcome(a, cur):
             rows = cur.fetchall()
             k = a["k"]
-            if k in ("ins", "del"):
-                n = rows[0][0] if len(rows) == 1 and len(rows[0]) == 1 else None
+            if k in ("ins", "del", "ins2", "delall", "upd"):
+                n = rows[0][0] if len(rows) == 1 and len(rows[0]) == (2 if k == "upd" else 1) else None
                 return f"count:{n}" if n is not None and cur.rowcount == n else f"badcount:rows={rows!r}/rowcount={cur.rowcount}"
+            if k in ("mk", "rm"):          # the DDL status line (its wording is C04's business): one row, one text column
+                return "ok" if len(rows) == 1 and len(rows[0]) == 1 and isinstance(rows[0][0], str) else f"badstatus:{rows!r}"[:80]
             return "ok" if rows == OK_STATUS else f"badstatus:{rows!r}"[:80]
 
         def snapshot():
-            ctx, var, vis = [], [], []
+            ctx, var, vis, cat = [], [], [], []
             for c in ("c1", "c2"):
                 p = probe[c]
                 rep = back.get(conns[c].schema, str(conns[c].schema))
@@ -137,7 +165,16 @@ class SYS(Prop):
                     except Exception:
                         seen.append([-1])
                 vis.append(seen)
-            return {"ctx": ctx, "var": var, "vis": vis}
+                views = []
+                for q in ("select table_schema from db1.information_schema.tables where table_name = 'U' order by 1",
+                          "select schema_name from duckdb_tables() where database_name = 'DB1' and table_name = 'U' order by 1"):
+                    try:
+                        p.execute(q)
+                        views.append(sorted(back.get(r[0], str(r[0])) for r in p.fetchall()))
+                    except Exception as e:
+                        views.append([_err(e)])
+                cat.append(views)
+            return {"ctx": ctx, "var": var, "vis": vis, "cat": cat}
 
         ev = []
         for op in ops:
@@ -145,15 +182,33 @@ class SYS(Prop):
             op = dict(op)
             if op["k"] in ("ins", "del") and op.get("src") == "lit":
                 op["how"] = rng.choice(("x", "s", "b"))
+            elif op["k"] in ("upd", "ins2"):
+                op["run"] = rng.choice(("x", "s", "b"))
+            elif op["k"] in ("sel", "fetch"):
+                pass
             elif op["k"] not in ("script", "descr", "begin", "commit", "rollback"):
                 op["how"] = rng.choice(("x", "x", "s"))
             op["u"] = rng.choice((1, 2))
             k, c = op["k"], op["c"]
             conn = conns[c]
-            res = []
+            res, got = [], []
             try:
-                if k == "script":
-                    text = ";\n".join(sql_of(a, False)[0] for a in op["items"])
+                if k == "sel":
+                    cur = rescur[c]
+                    cur.execute(sql_of(op, False)[0])
+                    res = [f"count:{cur.rowcount}"]
+                elif k == "fetch":
+                    cur = rescur[c]
+                    if op["how"] == "one":
+                        row = cur.fetchone()
+                        rows = [] if row is None else [row]
+                        res = ["none" if row is None else "rows"]
+                    else:
+                        rows = cur.fetchmany(2) if op["how"] == "many2" else cur.fetchall()
+                        res = ["rows" if isinstance(rows, list) else f"badrows:{type(rows).__name__}"]
+                    got = [int(r[0]) if len(r) == 1 else -1 for r in rows]
+                elif k == "script":
+                    text = ";\n".join(sql_of(dict(a, c=c), False)[0] for a in op["items"])
                     curs = list(conn.execute_string(text))
                     res = [outcome(a, cu) for a, cu in zip(op["items"], curs)]
                     if len(curs) != len(op["items"]):
@@ -171,7 +226,7 @@ class SYS(Prop):
                     d = cur.description        # reading description: nothing may change (whatever it returns)
                     res = ["ok" if d is None or isinstance(d, list) else "baddescr"]
                 else:
-                    how = op.get("how", "x")
+                    how = op.get("run") or op.get("how", "x")
                     sql, params = sql_of(op, how == "b")
                     if how == "s":
                         (cur,) = list(conn.execute_string(sql))
@@ -181,7 +236,7 @@ class SYS(Prop):
                     res = [outcome(op, cur)]
             except Exception as e:
                 res = [_err(e)]
-            ev.append({"op": op, "obs": {"res": res, "snap": snapshot()}})
+            ev.append({"op": op, "obs": {"res": res, "got": got, "snap": snapshot()}})
         for cn in conns.values():
             try:
                 cn.rollback()
@@ -207,7 +262,9 @@ def attribute(ops: list[dict], verdict: dict) -> str:
             out = set()
             if w.get("res") != got.get("res"):
                 out.add("res")
-            for f in ("ctx", "var", "vis"):
+            if w.get("got") != got.get("got"):
+                out.add("got")
+            for f in ("ctx", "var", "vis", "cat"):
                 if (w.get("snap") or {}).get(f) != (got.get("snap") or {}).get(f):
                     out.add(f)
             return out
@@ -223,6 +280,8 @@ def attribute(ops: list[dict], verdict: dict) -> str:
         return "C07"
     if k == "descr":
         return "C06"
+    if k in ("sel", "fetch") and diff & {"res", "got"}:
+        return "C05"
     if "ctx" in diff:
         return "C03"
     if "var" in diff:
@@ -233,7 +292,11 @@ def attribute(ops: list[dict], verdict: dict) -> str:
         return "C15"
     if k == "use":
         return "C03"
-    if k in ("ins", "del"):
+    if k in ("mk", "rm"):
+        return "C03" if op.get("tgt") == "u" and _created_elsewhere(got, wants) else "C09"
+    if "cat" in diff and "vis" not in diff:
+        return "C09"
+    if k in ("ins", "del", "upd", "ins2", "delall"):
         if op.get("src") == "var" and ("res" in diff) and not intx:
             return "C15"
         if op.get("tgt") == "u" and "vis" in diff and not intx:
@@ -248,6 +311,16 @@ def _landed_elsewhere(got, wants) -> bool:
         g = got["snap"]["vis"]
         w = wants[0]["snap"]["vis"]
         return any(len(g[j][0]) + len(g[j][1]) == len(w[j][0]) + len(w[j][1]) and g[j] != w[j] for j in range(2))
+    except Exception:
+        return False
+
+
+def _created_elsewhere(got, wants) -> bool:
+    """an unqualified CREATE / DROP of U that took effect in the other schema"""
+    try:
+        g = got["snap"]["cat"]
+        w = wants[0]["snap"]["cat"]
+        return any(len(g[j][1]) == len(w[j][1]) and g[j][1] != w[j][1] for j in range(2))
     except Exception:
         return False
 
